@@ -103,12 +103,7 @@ func logClose(err error, pw *io.PipeWriter) {
 	}
 }
 
-func (r *request) buildHTTP(mediaType, basePath string, producers map[string]runtime.Producer, registry strfmt.Registry, auth runtime.ClientAuthInfoWriter) (*http.Request, error) { //nolint:gocyclo,maintidx
-	// build the data
-	if err := r.writer.WriteToRequest(r, registry); err != nil {
-		return nil, err
-	}
-
+func (r *request) buildHTTP(mediaType, basePath string, producers map[string]runtime.Producer, registry strfmt.Registry, auth runtime.ClientAuthInfoWriter) (req *http.Request, err error) { //nolint:gocyclo,maintidx
 	// Our body must be an io.Reader.
 	// When we create the http.Request, if we pass it a
 	// bytes.Buffer then it will wrap it in an io.ReadCloser
@@ -116,6 +111,29 @@ func (r *request) buildHTTP(mediaType, basePath string, producers map[string]run
 	var body io.Reader
 	var pr *io.PipeReader
 	var pw *io.PipeWriter
+
+	// When no request comes out of this, nobody will ever consume the body:
+	// release what the request writer handed over.
+	defer func() {
+		if err == nil {
+			return
+		}
+		if pr != nil {
+			// unblocks the multipart writer goroutine, which closes the files on its way out
+			_ = pr.CloseWithError(err)
+		} else {
+			r.closeFiles()
+		}
+		if rdr, ok := r.payload.(io.ReadCloser); ok && body != r.buf {
+			// a stream payload the transport will never get to close
+			_ = rdr.Close()
+		}
+	}()
+
+	// build the data
+	if err := r.writer.WriteToRequest(r, registry); err != nil {
+		return nil, err
+	}
 
 	r.buf = bytes.NewBuffer(nil)
 	if r.payload != nil || len(r.formFields) > 0 || len(r.fileFields) > 0 {
@@ -144,6 +162,8 @@ func (r *request) buildHTTP(mediaType, basePath string, producers map[string]run
 				pw.Close()
 			}()
 
+			defer r.closeFiles()
+
 			for fn, v := range r.formFields {
 				for _, vi := range v {
 					if err := mp.WriteField(fn, vi); err != nil {
@@ -153,13 +173,6 @@ func (r *request) buildHTTP(mediaType, basePath string, producers map[string]run
 				}
 			}
 
-			defer func() {
-				for _, ff := range r.fileFields {
-					for _, ffi := range ff {
-						ffi.Close()
-					}
-				}
-			}()
 			for fn, f := range r.fileFields {
 				for _, fi := range f {
 					var fileContentType string
@@ -197,6 +210,7 @@ func (r *request) buildHTTP(mediaType, basePath string, producers map[string]run
 					}
 					if _, err := io.Copy(wrtr, fi); err != nil {
 						logClose(err, pw)
+						return
 					}
 				}
 			}
@@ -328,7 +342,7 @@ DoneChoosingBodySource:
 		urlPath += "/"
 	}
 
-	req, err := http.NewRequestWithContext(context.Background(), r.method, urlPath, body)
+	req, err = http.NewRequestWithContext(context.Background(), r.method, urlPath, body)
 	if err != nil {
 		return nil, err
 	}
@@ -350,6 +364,15 @@ DoneChoosingBodySource:
 	req.Header = r.header
 
 	return req, nil
+}
+
+// closeFiles closes every file handed over with SetFileParam.
+func (r *request) closeFiles() {
+	for _, ff := range r.fileFields {
+		for _, ffi := range ff {
+			ffi.Close()
+		}
+	}
 }
 
 func mangleContentType(mediaType, boundary string) string {
